@@ -17,6 +17,10 @@ func init() {
 
 var valueTypes = []string{"int", "string", "bool", "float64", "NInt", "NStr", "SV", "*SV", "[]int", "map[string]int", "Arr", "[2]int", "any", "SP", "*int", "[]string"}
 
+// hostileParamNames: identifiers generated code plausibly uses for its own variables.
+var hostileParamNames = []string{"last", "first", "rest", "arg", "args", "x", "y", "a", "b", "fn", "fun", "result", "res", "r", "ret", "tmp", "t",
+	"param", "param0", "param_0", "param1", "k", "key", "val", "value", "i", "j", "n", "s", "c", "ch", "wg", "ok", "e", "curried", "applied", "flipped", "tuple"}
+
 func sigKey(kind string, p, r []string) string {
 	return kind + "(" + strings.Join(p, ",") + ")(" + strings.Join(r, ",") + ")"
 }
@@ -47,7 +51,7 @@ func c15Items(c *Ctx) []pgen.FItem {
 		n++
 		items = append(items, pgen.PlumbItem(fmt.Sprintf("F%03d", n), kind, s))
 	}
-	modes := []string{"named", "blank", "unnamed", "reserved", "paramlike"}
+	modes := []string{"named", "blank", "unnamed", "reserved", "paramlike", "paramlike2"}
 	// systematic: every arity 2..5, every result count 0..3, every naming mode; first two parameter
 	// types identical (a swap is invisible to the type checker) or different
 	for np := 2; np <= 5; np++ {
@@ -87,6 +91,29 @@ func c15Items(c *Ctx) []pgen.FItem {
 	for i := 0; i < tierN(c, 20, 200); i++ {
 		s := pgen.RandSig(r, 2, 5, 3, valueTypes)
 		add([]string{"curry", "flip", "apply", "uncurry"}[r.Intn(4)], s)
+	}
+	// a dictionary of parameter names a generator might itself use for the variables it introduces: each
+	// name once at the first, a middle and the last position of a function whose parameters all have the
+	// same type (so that a capture or shadowing type-checks and only shows in the position-tagged values)
+	k := 0
+	for _, name := range hostileParamNames {
+		for pos := 0; pos < 3; pos++ {
+			for _, kind := range []string{"curry", "flip", "apply", "uncurry"} {
+				names := []string{"", "", ""}
+				names[pos] = name
+				for ; k < 4096; k++ {
+					T, R := valueTypes[k%len(valueTypes)], valueTypes[(k/len(valueTypes))%len(valueTypes)]
+					s := pgen.FSig{P: []string{T, T, T}, R: []string{R}, Mode: "names:" + strings.Join(names, ",")}
+					if (k/(len(valueTypes)*len(valueTypes)))%2 == 1 {
+						s.P = append(s.P, T)
+					}
+					if !seen[sigKey(kind, s.P, s.R)] {
+						add(kind, s)
+						break
+					}
+				}
+			}
+		}
 	}
 	// single-parameter apply
 	add("apply", pgen.FSig{P: []string{"int"}, R: []string{"string"}, Mode: "named"})
